@@ -814,3 +814,26 @@ V("addvar-counts-variables", "break", ["C13"], PB, "        self.shr_domain_nb =
   "the number of shared domains set to the number of variables (the pinned tree's defect)", "add_variable")
 V("addvars-return-domain-position", "break", ["C13"], PB, "        insertion_idx = len(self.dom_indices_lst)  # the index of the first extra variable\n",
   "        insertion_idx = len(self.shr_domains_lst)\n", "add_variables returns a position among the shared domains (the pinned tree's defect)", "add_variables")
+V("shaving-counters-in-locals-flushed-everywhere-neutral", "neutral", ["C17", "C10", "C04"], "nucs/solvers/shaving_consistency_algorithm.py", None, None,
+  "the three shaving counters accumulated in locals and written back on every exit (the no-change count derived as a difference)",
+  edits=[{"old": "    start_idx = 0\n    while start_idx < shr_domains_nb:\n", "new": "    start_idx = 0\n    shaving_nb = 0\n    shaving_change_nb = 0\n    while start_idx < shr_domains_nb:\n"},
+         {"old": "        statistics[STATS_IDX_ALG_SHAVING_NB] += 1\n", "new": "        shaving_nb += 1\n"},
+         {"old": "            statistics[STATS_IDX_ALG_SHAVING_CHANGE_NB] += 1\n", "new": "            shaving_change_nb += 1\n"},
+         {"old": "            statistics[STATS_IDX_ALG_SHAVING_NO_CHANGE_NB] += 1\n", "new": "            pass\n"},
+         {"old": "    return PROBLEM_UNBOUND\n", "new": "    statistics[STATS_IDX_ALG_SHAVING_NB] += shaving_nb\n    statistics[STATS_IDX_ALG_SHAVING_CHANGE_NB] += shaving_change_nb\n    statistics[STATS_IDX_ALG_SHAVING_NO_CHANGE_NB] += shaving_nb - shaving_change_nb\n    return PROBLEM_UNBOUND\n", "within": "def shaving_consistency_algorithm"},
+         {"old": "            if status != PROBLEM_UNBOUND:\n                return status\n", "new": "            if status != PROBLEM_UNBOUND:\n                statistics[STATS_IDX_ALG_SHAVING_NB] += shaving_nb\n                statistics[STATS_IDX_ALG_SHAVING_CHANGE_NB] += shaving_change_nb\n                statistics[STATS_IDX_ALG_SHAVING_NO_CHANGE_NB] += shaving_nb - shaving_change_nb\n                return status\n", "within": "def shaving_consistency_algorithm"}])
+V("shaving-counters-in-locals-early-return-unflushed", "break", ["C17"], "nucs/solvers/shaving_consistency_algorithm.py", None, None,
+  "the same refactoring, but the early return inside the loop does not write the counts back", "shaving_consistency_algorithm",
+  edits=[{"old": "    start_idx = 0\n    while start_idx < shr_domains_nb:\n", "new": "    start_idx = 0\n    shaving_nb = 0\n    shaving_change_nb = 0\n    while start_idx < shr_domains_nb:\n"},
+         {"old": "        statistics[STATS_IDX_ALG_SHAVING_NB] += 1\n", "new": "        shaving_nb += 1\n"},
+         {"old": "            statistics[STATS_IDX_ALG_SHAVING_CHANGE_NB] += 1\n", "new": "            shaving_change_nb += 1\n"},
+         {"old": "            statistics[STATS_IDX_ALG_SHAVING_NO_CHANGE_NB] += 1\n", "new": "            pass\n"},
+         {"old": "    return PROBLEM_UNBOUND\n", "new": "    statistics[STATS_IDX_ALG_SHAVING_NB] += shaving_nb\n    statistics[STATS_IDX_ALG_SHAVING_CHANGE_NB] += shaving_change_nb\n    statistics[STATS_IDX_ALG_SHAVING_NO_CHANGE_NB] += shaving_nb - shaving_change_nb\n    return PROBLEM_UNBOUND\n", "within": "def shaving_consistency_algorithm"}])
+V("shaving-counters-in-locals-wrong-branch", "break", ["C17"], "nucs/solvers/shaving_consistency_algorithm.py", None, None,
+  "the same refactoring with the success counter incremented on the failure branch", "shaving_consistency_algorithm",
+  edits=[{"old": "    start_idx = 0\n    while start_idx < shr_domains_nb:\n", "new": "    start_idx = 0\n    shaving_nb = 0\n    shaving_change_nb = 0\n    while start_idx < shr_domains_nb:\n"},
+         {"old": "        statistics[STATS_IDX_ALG_SHAVING_NB] += 1\n", "new": "        shaving_nb += 1\n"},
+         {"old": "            statistics[STATS_IDX_ALG_SHAVING_CHANGE_NB] += 1\n", "new": "            pass\n"},
+         {"old": "            statistics[STATS_IDX_ALG_SHAVING_NO_CHANGE_NB] += 1\n", "new": "            shaving_change_nb += 1\n"},
+         {"old": "    return PROBLEM_UNBOUND\n", "new": "    statistics[STATS_IDX_ALG_SHAVING_NB] += shaving_nb\n    statistics[STATS_IDX_ALG_SHAVING_CHANGE_NB] += shaving_change_nb\n    statistics[STATS_IDX_ALG_SHAVING_NO_CHANGE_NB] += shaving_nb - shaving_change_nb\n    return PROBLEM_UNBOUND\n", "within": "def shaving_consistency_algorithm"},
+         {"old": "            if status != PROBLEM_UNBOUND:\n                return status\n", "new": "            if status != PROBLEM_UNBOUND:\n                statistics[STATS_IDX_ALG_SHAVING_NB] += shaving_nb\n                statistics[STATS_IDX_ALG_SHAVING_CHANGE_NB] += shaving_change_nb\n                statistics[STATS_IDX_ALG_SHAVING_NO_CHANGE_NB] += shaving_nb - shaving_change_nb\n                return status\n", "within": "def shaving_consistency_algorithm"}])
